@@ -13,6 +13,8 @@
 mod c10;
 mod c12;
 mod c16;
+mod c20;
+mod jsonf;
 mod gens;
 mod core;
 mod orchestrate;
